@@ -14,9 +14,18 @@ Tie (correspondence at three levels, so that a divergence is localised):
   * model-load / model-dump : Retort.get_loader / get_dumper on real dataclass / TypedDict / class models with
         a name_mapping recipe, on systematic inputs, 3 debug_trail x 2 strict_coercion
                                                                        vs  layout model + `loadModel` / `dumpModel`
+  * nested-filter / nested-filter-spec (c03_nested.py): truth table of every skip / only / omit_default predicate as the
+        real name-layout provider applies it to the request of a model NESTED in other models (request location
+        stack of 2-6 locations, through fields and List / Optional / Dict arguments)
+                                                                       vs  `applyLsc` of Layout/LocPred.lean (checker run on
+        request.loc_stack + field location)  vs  the oracle's Python reading of the pattern on the documented stack
 Direct oracle (real code only, Python): the loaded object's field equals what was placed at the
 documented path, the dumped data holds the field at that path (or omits it iff it equals its default),
-the unknown-key policy delivers exactly the unknown keys, gaps of list layouts are None.
+the unknown-key policy delivers exactly the unknown keys, gaps of list layouts are None; a field the layout does not
+present is not read.  Nested models (c03_nested.py): skip / only / omit_default given as location patterns of 1-7
+elements rooted at the outermost model, an intermediate owner, the model itself, a field or a foreign model are
+evaluated on the FULL documented location stack of every occurrence, and the whole Retort.load / Retort.dump of
+the outer models is checked against the layout these truth tables prescribe.
 """
 
 import dataclasses
@@ -48,14 +57,22 @@ CLAIM = {
         "required key of a flat layout is reported with exactly the missing keys; the generated dumper writes every "
         "extracted field at the path of its leaf, omits an omit_default field iff its raw value equals the default "
         "(identity for None/True/False, == otherwise), writes None at gaps and no key outside the crown; dumping then "
-        "loading through the same crown returns the field values (dump_load_roundtrip)."
+        "loading through the same crown returns the field values (dump_load_roundtrip). The truth tables of skip / only / "
+        "omit_default are the documented meaning of the predicate (specMatches, C10) on request.loc_stack + field "
+        "location: apply_lsc never raises for an accepted predicate and answers the specification on the full stack "
+        "(filter_checked_on_full_stack, filter_table_is_spec), a k-element location pattern matches the last k "
+        "locations of that stack (pattern_filter_matches_tail, three_element_pattern_reads_enclosing_location), and a "
+        "field so matched by skip / not matched by only has no path, a defaulted field so matched by omit_default gets "
+        "a sieve (skip_on_full_stack_hides_field, only_on_full_stack_filters, omit_default_on_full_stack)."
     ),
     "note": (
         "The theorems are about the hand-written Lean model; it is tied to /repo on every run by correspondences "
         "(real BuiltinNameLayoutProvider crowns vs the model's, real compiled loaders/dumpers vs loadModel/dumpModel on "
         "systematic inputs for hand-made crowns and for real dataclass/TypedDict/class models with name_mapping "
         "recipes, 3 debug_trail x 2 strict_coercion) and by a Lean-independent direct oracle built from a Python "
-        "transcription of the documented rule. omit_default is modelled with the repaired comparison "
+        "transcription of the documented rule; for models nested in other models the real provider's filter tables on "
+        "the nested request are compared with applyLsc and with the oracle's reading of the patterns, and whole "
+        "Retort.load / dump of the outer models is checked by the oracle. omit_default is modelled with the repaired comparison "
         "(fixes/C03-omit-default-compare.patch); with ExtraKwargs and nested layouts the known branch keys reach "
         "**kwargs (known finding, negation proved as extra_kwargs_only_unknown_fails, flat case proved). Not proved: "
         "well-formedness of built output crowns (distinct keys) is a hypothesis of the dumper theorems and is checked "
@@ -70,7 +87,12 @@ RULE = ("programs = (model, name_mapping recipe) pairs with 1-5 fields over data
         "**kwargs, and hand-made (shape, crown, extra move) triples; per program the systematic inputs: valid datum, each "
         "leaf absent / ill-typed, each container node replaced by 7-9 wrong kinds / emptied / shortened / a str, unknown "
         "keys and extra items at each node, 2-3 fault combinations; x 3 debug_trail x 2 strict_coercion. A case is "
-        "non-trivial when it is not the plain valid datum of a failed-creation program")
+        "non-trivial when it is not the plain valid datum of a failed-creation program; nested programs = 2-4 dataclass "
+        "models (an inner model held directly / in List / Optional / Dict by one or two fields of two different owners, "
+        "optionally one more level) x 1-3 name_mapping providers (unbound / bound to the inner or outer model) whose skip / "
+        "only / omit_default are location patterns of 1-7 elements (suffixes of the full owner chain, re-rooted at foreign "
+        "models / fields, P[a, b], generic_arg, P.ANY, ~, |) x objects (all distinct from / equal to defaults, mixed) and "
+        "data (valid, optional absent, keys of filtered-out fields present, unknown key) x debug_trail x strict_coercion")
 ASSUMPTIONS = [
     "input data are JSON-like: None/bool/int/str/list/dict with str keys, plus opaque objects without __getitem__/.get "
     "(a dict with integer keys or a user Mapping with raising methods is outside the model)",
@@ -81,6 +103,9 @@ ASSUMPTIONS = [
     "the keys become keyword arguments, the branch keys are reported as a known finding",
     "omit_default 'equals its default' is read with the generated code's comparison: identity for the None/True/False "
     "literals, Python == otherwise, applied to the raw field value (repaired behaviour)",
+    "location stack of a nested model (oracle reading of 'P[Foo].name[Bar].age matches field age located at model Bar, "
+    "situated at field name, placed at model Foo'): [root model, field, (argument of the container: position 0 for List / "
+    "Optional, 1 for the values of Dict)?, field, ...]; a pattern describes the END of that stack",
     "the Python compiler / exec of the generated source is trusted; the model gives the meaning of the generated code "
     "construct by construct and the gen-load / gen-dump correspondences validate it per generated program",
 ]
@@ -190,6 +215,9 @@ def pred_holds(pred, fld) -> bool:
         return fld["type"] == pred["type"]
     if "regex" in pred:
         return re.fullmatch(pred["regex"], fld["id"]) is not None
+    if "ids" in pred:
+        # a predicate already evaluated on the full location stack of every field (nested-model suite)
+        return fld["id"] in pred["ids"]
     raise KeyError(pred)
 
 
@@ -1583,13 +1611,15 @@ def load_request(prog, mode, strict, datum):
 
 
 MODES = ("disable", "first", "all")
+NESTED_QUICK, NESTED_THOROUGH = 120, 1500
 
 
-def oracle_crown_load(ctx, prog, label, datum, mode, strict, real_out, suite="gen-load"):
+def oracle_crown_load(ctx, prog, label, datum, mode, strict, real_out, suite="gen-load", case=None):
     """direct oracle for an explicit crown (real code only): a field is read from exactly the path of its
-    leaf; absent optional fields take their default / are not passed; the unknown keys of every dict node
-    go where the policy sends them and nowhere else"""
-    case = {"suite": suite, "prog": prog, "mode": mode, "strict": strict, "label": label, "data": safe_enc(datum)}
+    leaf; absent optional fields take their default / are not passed; a field the layout does not present is
+    not read at all; the unknown keys of every dict node go where the policy sends them and nowhere else"""
+    if case is None:
+        case = {"suite": suite, "prog": prog, "mode": mode, "strict": strict, "label": label, "data": safe_enc(datum)}
     kinds = {f["id"]: f["type"] for f in prog["fields"]}
     by_id = {f["id"]: f for f in prog["fields"]}
     leaves = [(p, c) for p, c in crown_sites(prog["crown"]) if c["t"] == "field"]
@@ -1661,6 +1691,22 @@ def oracle_crown_load(ctx, prog, label, datum, mode, strict, real_out, suite="ge
             else:
                 ctx.fail(f"{suite}:wrong-kind-accepted", f"{mode}/{strict}: a container on the path {list(path)} of field "
                          f"{fid} has the wrong kind but loading succeeded", case)
+                return
+        # a field without a leaf (skipped / not selected by `only` / mapped to None) has no path: nothing of the
+        # datum may reach it, it keeps its default / is not passed
+        leaf_ids = {c["id"] for _, c in leaves}
+        mv_targets = prog["move"]["targets"] if isinstance(prog["move"], dict) else []
+        for f in prog["fields"]:
+            fid = f["id"]
+            if fid in leaf_ids or fid in mv_targets:
+                continue
+            if prog["move"] == "kwargs" and type(datum) is dict and fid in datum:
+                continue    # `constructor(**extra)`: an extra key named like a parameter binds it (see kwargs_binding)
+            got = real_out["args"].get(fid, "<not passed>")
+            allowed = ["<not passed>"] + ([safe_enc(f["default"]["v"])] if f["default"] is not None else [])
+            if got not in allowed:
+                ctx.fail(f"{suite}:unpresented-field-read", f"{mode}/{strict}: field {fid} is not presented by the "
+                         f"documented layout (skip / only / map None) but the constructor got {got!r} for it", case)
                 return
         # unknown keys
         expected_extra = py_extra_skeleton(prog["crown"], datum)
@@ -2138,19 +2184,13 @@ def py_sieve_keeps(default, value) -> bool:
     return value != default
 
 
-def oracle_crown_dump(ctx, prog, label, obj, extract, mode, real_out, suite="gen-dump"):
-    """direct oracle (real code only): every presented field is written at exactly the path of its leaf, an
-    omit_default field is left out iff its value equals the default, gaps hold their placeholder, nothing else
-    is in the output except the extra data"""
-    case = {"suite": suite, "prog": prog, "mode": mode, "label": label,
-            "obj": {k: safe_enc(v) for k, v in obj.items()}, "extract": extract}
-    if real_out["r"] != "ok":
-        return
+def py_expected_dump(prog, obj, extract):
+    """the data the documented layout prescribes for `obj` (fields by id), computed from the object only"""
     by_id = {f["id"]: f for f in prog["fields"]}
     targets = prog["move"]["targets"] if isinstance(prog["move"], dict) else []
 
-    def expect(c, is_root=False):
-        """(present?, expected value) of a crown node, computed from the object only"""
+    def expect(c):
+        """(present?, expected value) of a crown node"""
         t = c["t"]
         if t == "field":
             f = by_id[c["id"]]
@@ -2173,17 +2213,30 @@ def oracle_crown_dump(ctx, prog, label, obj, extract, mode, real_out, suite="gen
             out[k] = v
         return True, out
 
+    _, want = expect(prog["crown"])
+    if prog["move"] is not None and isinstance(want, dict):
+        extra = {}
+        if prog["move"] == "extract":
+            extra = dict(extract["v"])
+        else:
+            for t in targets:
+                if t in obj:
+                    extra.update(obj[t])
+        want = {**want, **extra}
+    return want
+
+
+def oracle_crown_dump(ctx, prog, label, obj, extract, mode, real_out, suite="gen-dump"):
+    """direct oracle (real code only): every presented field is written at exactly the path of its leaf, an
+    omit_default field is left out iff its value equals the default, gaps hold their placeholder, nothing else
+    is in the output except the extra data"""
+    case = {"suite": suite, "prog": prog, "mode": mode, "label": label,
+            "obj": {k: safe_enc(v) for k, v in obj.items()}, "extract": extract}
+    if real_out["r"] != "ok":
+        return
+    by_id = {f["id"]: f for f in prog["fields"]}
     try:
-        _, want = expect(prog["crown"], True)
-        if prog["move"] is not None and isinstance(want, dict):
-            extra = {}
-            if prog["move"] == "extract":
-                extra = dict(extract["v"])
-            else:
-                for t in targets:
-                    if t in obj:
-                        extra.update(obj[t])
-            want = {**want, **extra}
+        want = py_expected_dump(prog, obj, extract)
     except (TypeError, KeyError, ValueError, AttributeError):
         # the object was generated for the real layout and does not fit the documented one (e.g. a target field
         # that does not hold a mapping): nothing is prescribed for it
@@ -2629,6 +2682,8 @@ def run(ctx: Ctx):
     suite_gen_load(ctx, real, drv, ctx.budget(140, 1600), n_combo=ctx.budget(6, 10))
     suite_gen_dump(ctx, real, drv, ctx.budget(250, 2500), n_combo=ctx.budget(5, 10))
     suite_models(ctx, real, drv, ctx.budget(190, 1800), n_combo=ctx.budget(4, 8))
+    from harness.props import c03_nested
+    c03_nested.suite_nested(ctx, real, ctx.budget(NESTED_QUICK, NESTED_THOROUGH), drv)
     ctx.extra["oracle_cases_skipped"] = ctx.dist.get("oracle-skipped", 0)
     # ./check starts the directed search only when no oracle failure at all was seen; the listed known finding is
     # seen on every run, so a broken correspondence is followed up here
@@ -2725,6 +2780,9 @@ def search(ctx: Ctx):
     if not new_failures(ctx):
         suite_gen_dump(ctx, real, None, 400, n_combo=8)
     if not new_failures(ctx):
+        from harness.props import c03_nested
+        c03_nested.suite_nested(ctx, real, 300)
+    if not new_failures(ctx):
         for _ in range(250):
             prog = gen_program(ctx.rng, oracle_friendly=True)
             try:
@@ -2800,6 +2858,9 @@ def replay(ctx: Ctx, case) -> bool:
             real_o = run_real_dumper(dumper_fn, inst, case["mode"])
             oracle_crown_dump(ctx, oracle_prog(prog, "out", py[0], py[1]), case["label"], obj, ex_model, case["mode"],
                               real_o, suite="model-dump")
+    elif suite in ("nested-load", "nested-dump"):
+        from harness.props import c03_nested
+        return c03_nested.replay(ctx, real, case)
     else:
         return False
     return len(ctx.failures) > before
